@@ -140,7 +140,7 @@ def all_dynamic(prog):
                 walk(n[5])
             elif k == "if":
                 walk(n[2]); walk(n[3])
-            elif k in ("for", "with", "elem", "provide"):
+            elif k in ("for", "with", "elem", "provide", "include"):
                 walk(n[3])
             elif k == "fill":
                 walk(n[4])
